@@ -86,6 +86,7 @@ type obsRun struct {
 	wg       sync.WaitGroup
 	sent     []*atomic.Int64
 	res      []*[]string
+	feeding  atomic.Int64 // producers that have not yet delivered everything and closed their channel
 }
 
 func feed[T any](r *obsRun, values []T, capacity int, pc pacing, idx, total int) <-chan T {
@@ -93,6 +94,7 @@ func feed[T any](r *obsRun, values []T, capacity int, pc pacing, idx, total int)
 	cnt := &atomic.Int64{}
 	r.sent = append(r.sent, cnt)
 	pace, delay := pc.pacer(0, idx, total)
+	r.feeding.Add(1)
 	go func() {
 		if delay > 0 {
 			time.Sleep(delay)
@@ -105,8 +107,24 @@ func feed[T any](r *obsRun, values []T, capacity int, pc pacing, idx, total int)
 		}
 		close(c)
 		r.progress.Add(1)
+		r.feeding.Add(-1)
 	}()
 	return c
+}
+
+// settleProducers: after every output has been closed the library may still be draining its inputs while the (paced) producers
+// deliver the rest; wait until every producer has finished, or until nothing has moved for a full second (then the rest of the
+// inputs is really not being consumed and the census that follows says why)
+func (r *obsRun) settleProducers() {
+	last, lastChange := r.progress.Load(), time.Now()
+	for r.feeding.Load() > 0 {
+		time.Sleep(2 * time.Millisecond)
+		if cur := r.progress.Load(); cur != last {
+			last, lastChange = cur, time.Now()
+		} else if time.Since(lastChange) > time.Second {
+			return
+		}
+	}
 }
 
 func (r *obsRun) drain(recv func() (string, bool), pc pacing, idx, total int) {
@@ -532,7 +550,8 @@ func runSched(a []string) (result string) {
 	case "timeout":
 		return "timeout consumed=" + r.consumed()
 	}
-	// producers finish on their own once every value has been taken; give them a moment before the census
+	// producers finish on their own once every value has been taken: wait for them before the census
+	r.settleProducers()
 	leak, where := leakCensus(baseline)
 	if where == "" {
 		where = "-"
